@@ -307,14 +307,15 @@ class Desugar:
         return rec(root)
 
 
-def inlined_doc(crate, protected=(), multi=()):
+def inlined_doc(crate, protected=(), multi=(), desugar=True, desugar_in=None):
     """A fact document (same shape as the driver's) of the helper-inlined view of `crate`."""
     inl = Inliner(crate, protected, multi)
     bodies, gone = inl.run()
     ds = Desugar(inl.counter + 1000)
-    for b in bodies:
+    for b in (bodies if desugar else []):
         if b.get("body") is not None and not b.get("exp") and "::rules::visible::" not in b["path"] \
-                and "::rules::hidden::" not in b["path"] and b["path"] not in protected and b["path"] in multi:
+                and "::rules::hidden::" not in b["path"] and b["path"] not in protected \
+                and b["path"] in (desugar_in if desugar_in is not None else multi):
             if any(x.get("k") == "MethodCall" and x.get("path") in _COMB for x in walk(b["body"])):
                 if not any(b is o for o in crate.bodies):
                     b["body"] = ds.run(b["body"])
